@@ -213,7 +213,7 @@ class Ctx:
             tb.append('coqchk (independent checker) accepted %s; its context summary (axioms of every loaded library): %s' % (mod, summary[:600]))
         return True
 
-    def build_driver(self, group):
+    def build_driver(self, group, plain=False):
         """Extract_<group>.v has been compiled by make (it writes ocaml/gen/<group>.ml);
         compile it with ocaml/<group>_driver.ml into a native executable."""
         gen = os.path.join(VERIF, 'ocaml', 'gen')
@@ -237,8 +237,9 @@ class Ctx:
             raise ModelBuildError('extraction of %s failed: %s' % (group, (o + e)[-1500:]))
         drv = os.path.join(VERIF, 'ocaml', group + '_driver.ml')
         with open(os.path.join(d, group + '_driver.ml'), 'w') as fh:
-            fh.write('open %s\n' % group)
-            fh.write(open(os.path.join(VERIF, 'ocaml', 'conv.ml.inc')).read())
+            if not plain:       # plain: no `open <Group>` / shared prelude (the extracted module shadows `string`)
+                fh.write('open %s\n' % group)
+                fh.write(open(os.path.join(VERIF, 'ocaml', 'conv.ml.inc')).read())
             fh.write('\n# 1 "%s"\n' % drv)
             fh.write(open(drv).read())
         exe = os.path.join(d, group + '_driver')
